@@ -19,7 +19,7 @@ Presets1 == {<<1,2,0,1,0,0>>}
 PE(k, cells, mw, me, mo) == [k |-> k, cells |-> cells, mw |-> mw, me |-> me, mo |-> mo]
 K(k) == PE(k, {}, 0, 0, 0)
 All == 1..6
-Kinds == {"tx", "commit", "crash", "revert", "restart"}
+Kinds == {"tx", "commit", "crash", "revert", "restart", "lose"}
 
 \* preset block (two records: its transaction and its commit); one transaction of <= mw writes and <= me events
 \* (<= mo operations in all); commit or crash-after-application-commit; revert or restart
@@ -36,6 +36,14 @@ PlanSeq(cells, mw, me, mo) ==
     K({"revert", "restart"}), PE({"revert", "tx"}, cells, mw, me, mo), K({"commit"})>>
 PlanSeqA == PlanSeq({1, 2, 4}, 1, 0, 1)
 PlanSeqB == PlanSeq({1, 2, 4}, 1, 1, 2)
+
+\* three blocks (the last one committed or crashed), the engine loses one or two tips, recovery over 1..3 blocks, then a
+\* revert or a new block on the recovered state
+PlanLose(cells, mw, me, mo) ==
+  <<PE({"tx"}, cells, mw, me, mo), K({"commit"}), PE({"tx"}, cells, mw, me, mo), K({"commit"}), PE({"tx"}, cells, mw, me, mo), K({"commit", "crash"}),
+    K({"lose"}), K({"restart"}), PE({"revert", "tx"}, cells, mw, me, mo), K({"commit"})>>
+\* (simulation only: the exhaustive product of four transactions is out of reach)
+PlanLoseS == PlanLose(All, 4, 3, 6)
 
 \* preset block, then two transactions in one block (the first establishes the overlay the second runs on)
 Plan2Tx(c1, mw1, me1, mo1, c2, mw2, me2, mo2) ==
